@@ -2,7 +2,7 @@
    Statements only (copied from the lemma libraries); every proof is a bare
    `exact`; see the cited files in coq/proofs for the proofs. *)
 From Coq Require Import List NArith ZArith Bool Arith Sorting.Sorted Sorting.Permutation.
-From D2P Require Import Str Err Xml TableTypes Tables Fmt Bullets Merge Collector Walk ShapeFacts TokFacts FrameFacts BulletsFacts LineageFacts Predicates SeqFacts Iter Output Paths Package Content Utilities UtilFacts PyVal Source SourceBase SourceIter SourcePred SourceFmt PyHeap SourceHeap SourceHeapRuns SourceCaret SourceCaret2 SourceFresh SourceRuns SourceParas.
+From D2P Require Import Str Err Xml TableTypes Tables Fmt Bullets Merge Collector Walk ShapeFacts TokFacts FrameFacts BulletsFacts LineageFacts Predicates SeqFacts Iter Output Paths Package Content Utilities UtilFacts PyVal Source SourceBase SourceIter SourcePred SourceElem SourceFmt PyHeap SourceHeap SourceHeapRuns SourceCaret SourceCaret2 SourceFresh SourceRuns SourceParas.
 Import ListNotations.
 
 (* for EVERY table written as tbl/tr/tc/p directly nested (any number of rows, cells, paragraphs, any merged cells, any inline content), walked from any reachable state in any part: every paragraph it contributes reports the lineage (tbl, tr, tc, p) - or is the empty fill paragraph of a blanked merged position *)
